@@ -29,8 +29,8 @@ prop("C01", "proof", "Lean 4 theorems: mapper == record-level retrace specificat
      theorems=["PG.C01_mapper", "PG.C01_unknown_class", "PG.C01_unknown_method", "PG.C01_pm_indep", "PG.C01_offset_exact", "PG.C01_block_local", "PG.C01_cache"], oracle=True)
 prop("C02", "proof", "Lean 4 refinement proof (cache writer + reader == mapper == record-level specification) + differential correspondence",
      "Kernel-checked, for every record list in the representable domain (ReprR: names non-empty, line numbers < 2^32-1, strings valid UTF-8) whose tables fit the format's u32 counters (Small): the written bytes parse back to the written tables (serialisation round trip: little-endian u32s, 0-or-4-byte padding, header counts, LEB128-prefixed deduplicated string table); the tables represent the record stream (classes strictly sorted by name with last-block-wins, members grouped and sorted by obfuscated name in file order, by-params entries sorted by (name, args) after inline filtering and de-duplication, every offset resolving in the final string table, offsets identifying names); Rust's branch-free binary_search_by + linear range expansion on such tables return exactly the matching entries; hence class lookup, method lookup, frame remapping by line and by parameter list, throwable, text and typed stack-trace remapping and signature deobfuscation of the parsed cache equal those of the mapper (which equal the record-level specification, C01/C03/C04), for all query strings and line numbers; line-based mapper answers do not depend on the parameter index. The model is tied to the crate on every query kind over grammar, token-mutated, out-of-domain and corpus mappings, plus the direct oracle mapper == cache on the implementation's own answers.",
-     "ReprR carries validUtf8 as a hypothesis (Rust's &str guarantees it for actual records). Small (counts < 2^32, string section < 2^32-1 bytes) is forced by the format.",
-     theorems=["PG.C02_parses", "PG.C02_class", "PG.C02_method", "PG.C02_frame_line", "PG.C02_frame_params", "PG.C02_frame", "PG.C02_throwable", "PG.C02_text", "PG.C02_typed", "PG.C02_signature", "PG.C02_pm_indep"], oracle=True)
+     "At the level of mapping bytes (C02_bytes) the only hypotheses are the genuine domain conditions (names non-empty, line numbers < 2^32-1) and a file size below 16 MiB (a non-tight bound under which the u32 counters provably cannot overflow): validity of UTF-8 of everything the parser yields and the size of the tables are proved.",
+     theorems=["PG.C02_parses", "PG.C02_class", "PG.C02_method", "PG.C02_frame_line", "PG.C02_frame_params", "PG.C02_frame", "PG.C02_throwable", "PG.C02_text", "PG.C02_typed", "PG.C02_signature", "PG.C02_pm_indep", "PG.records_valid_utf8", "PG.reprR_of_records", "PG.small_of_length", "PG.C02_bytes"], oracle=True, module="PG.Props.C02b")
 prop("C03", "proof", "Lean 4 theorems: parameter-based retrace of mapper == specification (all record lists), cache == mapper (C02) + differential correspondence",
      "Parameter-based retrace of model vs crate on multi-class mappings with inline groups and repeated entries; oracle: mapper(pm) == cache, no duplicate methods, line 0 / no file.",
      "Model hand-written; tie is differential. Mapper side proved against PG/Spec/Retrace.lean (non-inlined entries, first occurrence per (obf,args,name), file order, line 0, no file, no duplicates, block-local); the cache side is C02.",
@@ -55,9 +55,10 @@ prop("C08", "proof", "Lean 4 theorems over all traces and all lookup functions +
      "Kernel-checked theorems about remapTyped rc rf (the model function behind remap_stacktrace_typed of mapper and cache) for every trace and every class/frame lookup: same cause-chain depth; every throwable at every level is remapped or kept unchanged (none dropped); every frame is replaced by its remapped frames or kept when it does not resolve; and for every trace in canonical printed form (TraceWF) printing the typed result equals the text API's output for the printed input. Tied to both Rust copies by the differential run (structured and parsed traces, depth <= 4) and by a structural oracle on the implementation.",
      "Canonical printed form = the well-formedness predicate TraceWF of PG/Props/C17.lean (top level has an exception or a frame, every cause has an exception, components free of their delimiters).",
      theorems=["PG.C08_depth", "PG.C08_exception", "PG.C08_frames", "PG.C08_agrees"], oracle=True)
-prop("C09", TV, "Lean 4 model + differential correspondence (proof in progress)",
-     "Bytes of the cache writer equal the model's bytes; an independent decoder + well-formedness predicate written in Lean from the documented format only (PG/Spec/Format.lean: magic, version, counts, strict class order, tiling of member / by-params ranges, member order, zero padding, alignment, string section length, every referenced offset a length-prefixed UTF-8 string or the absent sentinel) is run on the bytes the crate actually wrote; the crate's own self-test accepts every written file.",
-     "Model hand-written; tie is differential.", needs_layout=True, fmt=True)
+prop("C09", "proof", "Lean 4 theorem: every written file satisfies an independent format decoder + well-formedness predicate, and the self-test; the same predicate is run on the crate's bytes",
+     "Kernel-checked, for every record list in the representable domain whose tables fit the u32 counters: the bytes of the cache writer decode with Format.decode — a decoder written in Lean from the documented format only (PG/Spec/Format.lean, sharing no code with the reader model) — into a file satisfying Format.WF: correct magic, version and counts; class entries strictly sorted by obfuscated name whose member and by-params ranges tile their sections exactly, in class order; members sorted by name within a class, by-params entries by (name, params); 8-byte aligned sections with zero padding; a string section of exactly the declared length that ends the file, in which every referenced offset is a LEB128-length-prefixed valid UTF-8 string or, where the format allows absence, the sentinel; and the model of ProguardCache::test() accepts the parsed file. On every run the crate's bytes are compared with the model's, the same Format.check is evaluated on the bytes the crate actually wrote (FMT), and test() is called on them.",
+     "Model hand-written; tie is differential. ReprR/Small as in C02.",
+     theorems=["PG.C09_wf", "PG.C09_check", "PG.C09_selftest"], needs_layout=True, fmt=True)
 prop("C10", "proof", "Lean 4 theorems (layout frozen against the current source, reader compatibility on every buffer) + cross-release differential run",
      "Kernel-checked: (1) layout_frozen — re-checked on every run against PG/Generated/Layout.lean, which is regenerated from /repo/src/cache/raw.rs: while the source declares format version 1 its magic, the names/types/order of the Header, Class and Member fields and the Class sentinels are exactly those of the pinned release, so a layout or sentinel change without a version bump breaks a proof obligation; (2) C10_reader_compat — for every buffer and every line-based frame query, whenever the frozen model of the 5.5.0 reader answers, the current reader model gives the identical answer (all other primitive queries are the same model functions); C10_no_fault — the 5.5.0 reader's unchecked arithmetic cannot fault on buffers of the shape either release writes from mappings with line numbers < 2^32; C10_version_gate — any other version is rejected with the wrong-version error. Both reader models are tied to their crates (vendored 5.5.0 snapshot and current tree) on files written by both writers, and both crates cross-read both writers' files and are compared query for query on every run.",
      "The pinned *writer* is not modelled (repairs F1/F7 changed what the writer emits for some mappings); that both writers' files are read identically by both readers is established by the cross-release differential run, not proved. remap_stacktrace_typed is excluded from the comparison (repair F3 changed it independently of the file format).",
